@@ -2,7 +2,7 @@
    line decodes to is the tag written on THAT line; what a decoder that reuses its target does. *)
 From Coq Require Import List NArith Bool.
 From PV Require Import Lib.Table Lib.AmmoBytes Lib.AmmoLines Model.Sample Model.Shoot Model.AmmoCommon Model.AmmoUri Model.AmmoJson
-  Model.ShootAmmo Model.ShootJsonLine Proofs.ShootAmmoProofs.
+  Model.ShootAmmo Model.ShootJsonLine Proofs.ShootAmmoProofs Proofs.AmmoJsonProofs.
 Import ListNotations.
 
 (* decoding into ANY target: the tag afterwards is the last tag member written, and the
@@ -71,6 +71,18 @@ Section File.
     intros H Hne. split; [apply json_file_samples; assumption|].
     pose proof (read_array_tags url_parse _ _ H) as Ht. rewrite lines_entities_tags in Ht.
     split; [exact Ht|]. rewrite <- (map_length e_tag es), Ht. apply map_length.
+  Qed.
+
+  (* the same members as the elements of one JSON array (readArray + scanAmmos) *)
+  Lemma json_array_file_samples path_of xof ls es k :
+    read_array url_parse (lines_entities ls) = Some es -> es <> [] ->
+    exists ds, json_array_decode url_parse cfg0 k (lines_entities ls) = Some ds /\
+      shoot_deliveries cfg e_tag path_of xof 0 1 ds = ammo_spec cfg e_tag path_of xof 0 1 (cycle_take k es es) /\
+      map e_tag es = map line_tag ls.
+  Proof.
+    intros H Hne. exists (map SDeliver (cycle_take k es es)).
+    split; [apply json_array_cyclic; assumption|]. split; [apply shoot_deliveries_spec|].
+    rewrite (read_array_tags url_parse _ _ H). apply lines_entities_tags.
   Qed.
 End File.
 
